@@ -60,7 +60,7 @@ C_VALUES: typing.Dict[str, list] = {
     "omit_float_serialization_support": [False, True],
     "enable_serialization_asserts": [False, True],
     "enable_override_variable_array_capacity": [False, True],
-    "cast_format": ["(({type}) {value})", "(({type})({value}))", "({type}) {value}"],
+    "cast_format": ["(({type}) {value})", "(({type})({value}))", "({type}) {value}", "(({type}){value})"],  # the last differs from the first in white space only
     # `--language-standard c11` is the documented C value of that flag (c99 is named in its help text; only reachable via
     # a configuration file); ABSENT = key not set anywhere (equals the built-in default when the tree defines one)
     "std": [ABSENT, "c11", "c99"],
